@@ -43,7 +43,7 @@ def clientId : Option Nat :=
   | none => none
 def idFor (isClient : Bool) : Option Nat := if isClient then clientId else serverId
 
-def live (mode : Mode) (nmedia : Nat) (data legacy muxreq : Bool) (mat ksO ksA : Option (List UInt8))
+def live (conc : Bool) (mode : Mode) (nmedia : Nat) (data legacy muxreq : Bool) (mat ksO ksA : Option (List UInt8))
     (suiteO suiteA : String) : String :=
   let nsec := nmedia + (if data then 1 else 0)
   let eps := exchange ⟨mode, none⟩ ⟨mode, none⟩ nsec
@@ -90,7 +90,7 @@ def live (mode : Mode) (nmedia : Nat) (data legacy muxreq : Bool) (mat ksO ksA :
       let a2 := dcAlloc eps.2.role [0, o1, a1, o2]
       s!"{o1}.{a1}.{o2}.{a2}:1111"
     else "-"
-  s!"conn=1 roles={roleText eps.1.role}/{roleText eps.2.role} setup={setupO}/{setupA} profile={profO}/{profA} keys={keysO}/{keysA} bundle={b01 bundleO}/{b01 bundleA} mux={b01 muxO}/{b01 muxA} ports={ports bundleO}/{ports bundleA} extra={extra bundleO}/{extra bundleA} data={dataT} rtp={bits delivered}/{bits delivered} dc2={dc2T}"
+  s!"conn=1 roles={roleText eps.1.role}/{roleText eps.2.role} setup={setupO}/{setupA} profile={profO}/{profA} keys={keysO}/{keysA} bundle={b01 bundleO}/{b01 bundleA} mux={b01 muxO}/{b01 muxA} ports={ports bundleO}/{ports bundleA} extra={extra bundleO}/{extra bundleA} data={dataT} rtp={bits delivered}/{bits delivered} dc2={dc2T} conc={if conc then "1111" else "-"}"
 
 def optHex (s : String) : Option (Option (List UInt8)) :=
   if s = "-" then some none else (unhex s).map some
@@ -164,10 +164,12 @@ def handle (stream : String) (args : List String) : String :=
       | .ok (p, k) => s!"{profileText p} {keysText k}"
       | .error _ => "err err"
     | _, _ => "bad-hex"
-  | "live", m :: nmedia :: data :: legacy :: muxreq :: mat :: ksO :: ksA :: suiteO :: suiteA :: _ =>
+  | "live", m :: nmedia :: data :: legacy :: muxreq :: mat :: ksO :: ksA :: suiteO :: suiteA :: rest =>
     match parseMode m, nmedia.toNat?, optHex mat, optHex ksO, optHex ksA with
     | some mode, some nm, some mat, some ksO, some ksA =>
-      live mode nm (data = "1") (legacy = "1") (muxreq = "1") mat ksO ksA suiteO suiteA
+      -- `c1`: the harness ran the concurrent media + data phase on this point: both bursts arrive complete,
+      -- in order and intact, and RTP keeps arriving afterwards in both directions
+      live (rest.head? == some "c1") mode nm (data = "1") (legacy = "1") (muxreq = "1") mat ksO ksA suiteO suiteA
     | _, _, _, _, _ => "bad-live"
   | _, _ => "bad-stream"
 
